@@ -83,6 +83,11 @@ class LBCheck(BaseCheck):
     w = make_world(env, rng, kind, lb_params, open_delay, gs_delay, gs_fail, gs_dups, endpoint_name=named)
     lb, ss = w.lb, w.ss
     w.close_fails_inflight = rng.random() < 0.4
+    if idx % 9 == 7:
+      # debug logging through a handler that yields: every log call in the balancer is a point
+      # where the notifier, timers and other greenlets run
+      env.yielding_logs()
+      classes.add('yielding-log-handler')
     for ep in rng.sample(pool, n0):
       ss.truth[ep] = __import__('vlib.lbworld', fromlist=['Member']).Member(ep)
     prof = self.profile(rng, tier)
